@@ -1,11 +1,12 @@
 import FastgoModel.Spec.Inflate
 import FastgoModel.Writer.Replay
 import FastgoModel.Container.Members
+import FastgoModel.Reader.Replay
 /-
   Line-protocol driver of the executable models (`lake build fgmodel`).
   One case per input line, one answer line per case. Bytes travel as lowercase hex.
 -/
-open Fastgo Fastgo.Spec Fastgo.Writer Fastgo.Container
+open Fastgo Fastgo.Spec Fastgo.Writer Fastgo.Container Fastgo.Reader
 
 def hexVal (c : Char) : Option Nat :=
   if '0' ≤ c ∧ c ≤ '9' then some (c.toNat - '0'.toNat)
@@ -119,6 +120,48 @@ def answerZP (dict : Option (List UInt8)) (bs : List UInt8) : String :=
   | .badHeader => "badheader"
   | .badDict => "baddict"
 
+/-! ### R: the Reader control model with a replayed decoder -/
+
+def parseChunk (s : String) : Option Chunk :=
+  match s.splitOn ":" with
+  | ["c", n] => some { bytes := List.replicate (parseNat! n) 0 }
+  | ["c", n, "e"] => some { bytes := List.replicate (parseNat! n) 0, err := some .eof }
+  | ["c", n, f] => some { bytes := List.replicate (parseNat! n) 0, err := some (.fail (parseNat! (f.drop 1).toString)) }
+  | _ => none
+
+def parseStatus (s : String) : DStatus :=
+  if s = "endinput" then .needInput else if s = "outfull" then .outFull else if s = "invalid" then .invalid else .done
+
+def parseDEv (s : String) : Option DEv :=
+  match s.splitOn ":" with
+  | [ib, bb, ia, ba, p, st, en] =>
+    some { inBefore := parseNat! ib, bitsBefore := parseNat! bb, inAfter := parseNat! ia, bitsAfter := parseNat! ba,
+           produced := parseNat! p, status := parseStatus st, ended := en = "1" }
+  | _ => none
+
+def reStr : Option RE → String
+  | none => "ok"
+  | some .eof => "EOF"
+  | some .unexpectedEOF => "UnexpectedEOF"
+  | some .corrupt => "Corrupt"
+  | some (.src .eof) => "EOF"
+  | some (.src (.fail id)) => s!"src{id}"
+
+def answerR (size : Nat) (chunks : List Chunk) (reads : List Nat) (log : List DEv) : String :=
+  let D := replayDecoder log
+  let r0 : RState RDec := RState.init D { size := size, src := chunks }
+  let rec go (r : RState RDec) (reads : List Nat) (acc : List String) : RState RDec × List String :=
+    match reads with
+    | [] => (r, acc.reverse)
+    | w :: rest =>
+      match Reader.read D (r.bio.fuel + log.length + 8) r w with
+      | (r1, .data bs e) => go r1 rest (s!"{bs.length},{reStr e}" :: acc)
+      | (r1, .blocked) => (r1, ("blocked" :: acc).reverse)
+      | (r1, .outOfFuel) => (r1, ("outoffuel" :: acc).reverse)
+  let (r, lines) := go r0 reads []
+  let bad := match r.dec.bad with | none => "-" | some m => m
+  s!"{String.intercalate ";" lines} taken={r.bio.taken} left={r.dec.log.length} bad={bad}"
+
 def step (line : String) : String :=
   match (line.trimAscii.toString.splitOn " ") with
   | ["I", mode, dict, stream] =>
@@ -132,6 +175,11 @@ def step (line : String) : String :=
     let os := (ops.splitOn ",").filterMap parseOp
     let es := if evs = "-" then [] else (evs.splitOn ";").filterMap parseEv
     answerW (parseNat! window) (parseNat! maxTok) fl os es
+  | ["R", size, chunks, reads, evs] =>
+    let cs := (if chunks = "-" then [] else chunks.splitOn ";").filterMap parseChunk
+    let rs := (reads.splitOn ",").map parseNat!
+    let es := (if evs = "-" then [] else evs.splitOn ";").filterMap parseDEv
+    answerR (parseNat! size) cs rs es
   | ["K", "crc", data] =>
     match parseHex data with
     | some d => s!"{(crc32 d).toNat}"
